@@ -3,7 +3,7 @@ import vf.hx as hx
 from vf.spec import X
 from ECAgent.Core import Model, System, SystemManager, ModelCompleteError, Agent, Component
 import ECAgent.Batching as B
-from vf.stubs import NULL_LOGGER
+from vf.stubs import NULL_LOGGER, NullLogger
 from ECAgent.Collectors import Collector
 
 
@@ -126,7 +126,7 @@ def complete_during_multistep(p0: int, p1: int, p2: int, c: int, t: int, at: int
     return hx.end(not m.is_running())
 
 
-def after_complete_step(p0: int, p1: int, p2: int, t: int, inside: bool, n_adv: int, pnew: int) -> bool:
+def after_complete_step(p0: int, p1: int, p2: int, t: int, inside: bool, n_adv: int, pnew: int, log_enabled: bool) -> bool:
     """
     pre: p0 >= p1 >= p2
     pre: 1 <= n_adv <= 3
@@ -136,6 +136,7 @@ def after_complete_step(p0: int, p1: int, p2: int, t: int, inside: bool, n_adv: 
     # and ONE later request: one inductive step covers every later history.
     hx.begin()
     n, req = hx.P['n'], hx.P['req']
+    NullLogger.enabled = log_enabled       # whether INFO is enabled for the model's logger: ambient configuration
     m = LogModel()
     q = _prestate(m, n, [p0, p1, p2], t)
     a = Agent("a", m)
@@ -192,6 +193,7 @@ def after_complete_step(p0: int, p1: int, p2: int, t: int, inside: bool, n_adv: 
         return hx.end(hx.fail("model reports running again", request=req))
     if req not in ('add_system', 'remove_system') and not hx.same_seq(m.systems.execution_queue, snap_q):
         return hx.end(hx.fail("system set changed by an advance request"))
+    NullLogger.enabled = True
     if not hx.same_seq(list(m.systems.component_pools.get(T1, [])), snap_pool) or \
             not hx.same_seq(list(m.environment.agents.values()), snap_agents):
         return hx.end(hx.fail("model state changed by a request after completion"))
